@@ -14,7 +14,7 @@ from . import stepsim
 
 PROPERTY = "C02"
 TIERS = {
-    "quick": {"runs": 320, "budget_s": 110, "chunk": 4},
+    "quick": {"runs": 1200, "budget_s": 110, "chunk": 4},
     "thorough": {"runs": 12000, "budget_s": 900, "chunk": 8},
 }
 REQUIRED_PROBES = {
